@@ -56,6 +56,7 @@ type Exec struct {
 	modBusy  map[*ssa.Function]bool
 	retPaths int
 	kinds    map[string]int
+	refKey   map[string]bool
 	Observe  map[string]string // name -> contract expression evaluated in the entry state (for counterexample replay)
 	obsTerms map[string]string
 	coverPC  [][]string
@@ -85,7 +86,62 @@ func (x *Exec) oblige(st *State, name, kind, src, goal string) {
 		x.obls[name] = o
 		x.order = append(x.order, name)
 	}
-	o.Queries = append(o.Queries, PathQuery{PC: append([]string(nil), st.pc...), Goal: goal, Trail: strings.Join(st.trail, ">")})
+	pc := append([]string(nil), st.pc...)
+	for _, g := range splitGoal(goal) {
+		o.Queries = append(o.Queries, PathQuery{PC: pc, Goal: g, Trail: strings.Join(st.trail, ">")})
+	}
+}
+
+// splitGoal distributes a goal over its top-level conjunctions (also under implications and
+// universal quantifiers), so that each solver query proves one small fact.
+func splitGoal(goal string) []string {
+	if len(goal) < 400 {
+		return []string{goal}
+	}
+	var parts []string
+	var rec func(n *sx, wrap func(string) string, depth int)
+	rec = func(n *sx, wrap func(string) string, depth int) {
+		if depth < 8 && n.kids != nil {
+			switch n.head() {
+			case "and":
+				for _, k := range n.kids[1:] {
+					rec(k, wrap, depth) // flattening conjunctions does not count as nesting
+				}
+				return
+			case "=>":
+				if len(n.kids) == 3 {
+					p := n.kids[1].String()
+					rec(n.kids[2], func(s string) string { return wrap("(=> " + p + " " + s + ")") }, depth+1)
+					return
+				}
+			case "forall":
+				if len(n.kids) == 3 {
+					vars := n.kids[1].String()
+					body := n.kids[2]
+					pats := ""
+					if body.head() == "!" && len(body.kids) >= 2 {
+						for _, k := range body.kids[2:] {
+							pats += " " + k.String()
+						}
+						body = body.kids[1]
+					}
+					rec(body, func(s string) string {
+						if pats != "" {
+							return wrap("(forall " + vars + " (! " + s + pats + "))")
+						}
+						return wrap("(forall " + vars + " " + s + ")")
+					}, depth+1)
+					return
+				}
+			}
+		}
+		parts = append(parts, wrap(n.String()))
+	}
+	rec(parseSx(goal), func(s string) string { return s }, 0)
+	if len(parts) > 80 || len(parts) == 0 {
+		return []string{goal}
+	}
+	return parts
 }
 
 // ---------- strings ----------
@@ -375,7 +431,7 @@ func (x *Exec) valEq(a, b Val) string {
 			if a.B == "0" {
 				return eq(b.B, "0")
 			}
-			return and(eq(a.B, b.B), eq(a.O, b.O), eq(a.L, b.L))
+			return and(eq(a.B, b.B), eq(a.O, b.O), eq(a.L, b.L), eq(a.C, b.C))
 		}
 	case SV:
 		if b, ok := b.(SV); ok && len(a.F) == len(b.F) {
@@ -1251,6 +1307,9 @@ func (x *Exec) mapLoad(st *State, h Heap, mt types.Type, m, k string) (Val, stri
 	ok := sel(sel(x.hget(h, d), m), k)
 	var val Val
 	if isScalar(mm.Elem()) {
+		if isPointer(mm.Elem()) || isMap(mm.Elem()) {
+			x.markRef(v)
+		}
 		tv := TV{sel(sel(x.hget(h, v), m), k), mm.Elem()}
 		if st != nil {
 			st.assume(rangeFact(mm.Elem(), tv.T))
